@@ -5,6 +5,7 @@ import (
 	"bytes"
 	"context"
 	"fmt"
+	"net"
 	"os"
 	"strings"
 	"time"
@@ -295,6 +296,49 @@ func sigma() {
 	res.Sample(map[string]any{"family": "sigma", "datagram": "a:1|c\na"})
 }
 
+// ---- "every metric carries the datagram's receive time", through the real DatagramReceiver: the receiver is
+// already waiting in ReadFrom when the harness reads the clock and only then lets a datagram arrive, so the
+// receive time cannot be earlier than that reading (and not later than the reading taken once the batch is out).
+
+type gatedConn struct {
+	entered chan struct{}
+	data    chan []byte
+}
+
+func (c *gatedConn) ReadFrom(b []byte) (int, net.Addr, error) {
+	c.entered <- struct{}{}
+	d := <-c.data
+	return copy(b, d), &net.UDPAddr{IP: net.IPv4(9, 8, 7, 6), Port: 1}, nil
+}
+func (c *gatedConn) WriteTo([]byte, net.Addr) (int, error) { return 0, nil }
+func (c *gatedConn) Close() error                           { return nil }
+func (c *gatedConn) LocalAddr() net.Addr                    { return &net.UDPAddr{} }
+func (c *gatedConn) SetDeadline(time.Time) error            { return nil }
+func (c *gatedConn) SetReadDeadline(time.Time) error        { return nil }
+func (c *gatedConn) SetWriteDeadline(time.Time) error       { return nil }
+
+func receiveTime() {
+	out := make(chan []*statsd.Datagram)
+	conn := &gatedConn{entered: make(chan struct{}), data: make(chan []byte)}
+	dr := statsd.NewDatagramReceiver(out, nil, 1, 1)
+	go dr.Receive(context.Background(), conn)
+	for k, idle := range []time.Duration{0, 3 * time.Millisecond, 0, 20 * time.Millisecond} {
+		res.Evaluations++
+		<-conn.entered // the receiver is inside ReadFrom, waiting for a datagram
+		time.Sleep(idle + time.Millisecond)
+		before := gostatsd.NanoNow()
+		conn.data <- []byte(fmt.Sprintf("rt%d:1|c", k))
+		batch := <-out
+		after := gostatsd.NanoNow()
+		for _, dg := range batch {
+			if dg.Timestamp < before || dg.Timestamp > after {
+				res.Violate("receive-time", fmt.Sprintf("datagram %d arrived between clock readings %d and %d (the receiver had been waiting %v) but is stamped %d (%v before its arrival)", k, before, after, idle, dg.Timestamp, time.Duration(before-dg.Timestamp)), map[string]any{"receiveTime": true})
+			}
+			dg.DoneFunc()
+		}
+	}
+}
+
 func main() {
 	res = vrt.Init()
 	if *vrt.ReplayPath != "" {
@@ -303,8 +347,14 @@ func main() {
 			IgnoreHost bool
 			Ns         string
 		}
+		var rt struct{ ReceiveTime bool }
 		vrt.LoadReplay(&rp)
-		checkDatagram(newRig(rp.IgnoreHost, rp.Ns), rp.Bytes)
+		vrt.LoadReplay(&rt)
+		if rt.ReceiveTime {
+			receiveTime()
+		} else {
+			checkDatagram(newRig(rp.IgnoreHost, rp.Ns), rp.Bytes)
+		}
 		for _, v := range res.Violations {
 			fmt.Println(v.Key, "\n ", v.Msg)
 		}
@@ -320,6 +370,9 @@ func main() {
 		sigma()
 	case "structured":
 		structured()
+		if *vrt.Shard == 0 {
+			receiveTime()
+		}
 	}
 	res.DistinctNontrivial = nontrivial
 	res.States = res.Evaluations
